@@ -210,10 +210,13 @@ def generate(repo):
         guard_needs = 3
     if guard_needs >= 2:
         has_guard = True
+    # fixes/C08-bs-no-particles.diff: reb_check_exit does not count the N-body ODE that BS registers itself
+    ce = _func_body(rc, "reb_check_exit") or ""
+    bs_user_odes = bool(re.search(r"nbody_ode", ce))
     integ_fn = _func_body(rc, "reb_simulation_integrate") or ""
     has_nan_guard = bool(re.search(r"isnan\s*\(\s*tmax\s*\)", integ_fn + raw))
     return "\n".join(L) + "\n", dict(enum=enum, table=table, problems=problems, kinds=kinds, lineno=lineno, has_progress_guard=has_guard,
-                                    has_nan_guard=has_nan_guard, guard_needs=guard_needs)
+                                    has_nan_guard=has_nan_guard, guard_needs=guard_needs, bs_user_odes=bs_user_odes)
 
 
 if __name__ == "__main__":
